@@ -22,7 +22,7 @@ UNQ = ["a", "a1_", "-Dx=y", "a;b", "a\;b", "a\\ b", "\\#", "\\(", "\\\"", "\\\\"
        # characters that Python's str.splitlines()/isspace() treat as separators but CMake as ordinary text
        "a\x0cb", "a\u2028b", "a\x85b", "a\x0bb", "a\xa0b"]
 QUO = ['"x\x0cy\u2029z"', '""', '"a b"', '"a#b"', '"a;b"', '"(x)"', '"[[x]]"', '"\\"q\\""', '"\\(x\\)"', '"l1\nl2"', '"c\\\nd"', '"ü✓"']
-BRA = ["[[a]]", "[[a;b]]", "[[a(b]]", '[[ "x ]]', "[=[a]]b]=]", "[==[\nx\n]==]", "[[#c]]"]
+BRA = ["[=[\n]=]", "[[\n]]", "[[a]]", "[[a;b]]", "[[a(b]]", '[[ "x ]]', "[=[a]]b]=]", "[==[\nx\n]==]", "[[#c]]"]
 PAR = ["()", "(a)", "(a (b))", "((a) b)"]
 LEX = UNQ + QUO + BRA + PAR
 CORE = ["a", "a\;b", "\\#", "${v}/x", "[x]", "]]", '""', '"a#b"', '"(x)"', '"c\\\nd"', "[[a(b]]", "[=[a]]b]=]", "()",
@@ -286,6 +286,9 @@ def block_files():
         "test": [{"k": "ct_add_test", "doc": 1}, {"k": "ct_add_section", "doc": 1, "expectfail": 1},
                  {"k": "ct_add_section", "doc": 0, "impl": "macro"}],
         # doccomments on the declaration AND on the definition that implements it (only acceptance is judged here)
+        "documented_closers": [{"k": "function", "doc": 1, "params": []}, {"k": "macro", "doc": 0, "params": []},
+                               {"k": "close", "doc": 1}, {"k": "close", "doc": 1}, {"k": "cpp_class", "doc": 1},
+                               {"k": "close", "doc": 1}, {"k": "if", "doc": 0}, {"k": "close", "doc": 1}],
         "test_impldoc": [{"k": "ct_add_test", "doc": 1, "impldoc": 1}, {"k": "ct_add_section", "doc": 0, "impldoc": 1},
                          {"k": "close"}, {"k": "close"}, {"k": "cmake_parse_arguments"}, {"k": "function", "doc": 1, "params": []}],
         "class_impldoc": [{"k": "cpp_class", "doc": 1}, {"k": "cpp_member", "doc": 1, "impldoc": 1, "types": ["int"], "params": ["a"]},
@@ -298,6 +301,25 @@ def block_files():
                 e2 = [dict(e, doc=(e.get("doc", 0) if docs else 0)) if "doc" in e else dict(e) for e in evs]
                 out.append((f"block structure {name}, {case} case, {'documented' if docs else 'undocumented'}",
                             cmakegen.text_of(e2, case=case)))
+    return out
+
+
+def documented_uses(lexemes):
+    """every lexeme as the value/parameter/name of each documentable command kind, with a doccomment: only acceptance
+    (and the command sequence) is judged"""
+    out = []
+    d = "#[[[\n# doc\n#]]\n"
+    for L in lexemes:
+        if L.startswith("("):
+            continue
+        out.append((f"documented set with value {L!r}", f"{d}set(V {L})\n"))
+        out.append((f"documented set with values {L!r} x2", f"{d}set(V {L} {L})\n"))
+        out.append((f"documented option with help {L!r}", f"{d}option(O {L} {L})\n"))
+        out.append((f"documented function with parameter {L!r}", f"{d}function(f {L})\nendfunction()\n"))
+        out.append((f"documented add_test with {L!r}", f"{d}add_test(NAME {L} COMMAND {L})\n"))
+        out.append((f"class/attr/member with {L!r}", f"{d}cpp_class(C {L})\n{d}cpp_attr(C a {L})\n{d}cpp_member(m C {L})\n"
+                                                      f"function(\"${{m}}\" self {L})\nendfunction()\ncpp_end_class()\n"))
+        out.append((f"test with {L!r}", f"{d}ct_add_test(NAME {L})\nfunction({L})\nendfunction()\n"))
     return out
 
 
@@ -348,6 +370,8 @@ def run(ctx):
     for (label, text), r in zip(cf, ctx.sweep(check_file, cf, space="comment shapes", selftest=10)):
         pass
     ctx.sweep(check_file, block_files(), space="block structures x command-name case", selftest=3)
+    ctx.sweep(check_file, documented_uses(LEX if not quick else [l for l in LEX if l in CORE or l in BRA or l in QUO]),
+              space="documented commands x lexemes", selftest=3)
     # 3b. signature of documented generic commands (arguments without line breaks)
     one_line = [l for l in LEX if "\n" not in l]
     sig_jobs = [[a] for a in one_line] + [[a, b] for a in CORE for b in CORE if "\n" not in a + b]
